@@ -3,7 +3,7 @@
 name="$1"; src="$2"; wt=/tmp/sw/$name
 rm -rf "$wt"; mkdir -p /tmp/sw
 git -C /repo worktree add --detach "$wt" HEAD -q || exit 3
-cd "$wt"
+cd "$wt"; export PYTHONPATH="$wt"
 timeout 600 /venv/bin/python "$src/demo.py" >/tmp/sw/$name.clean.log 2>&1; clean=$?
 git apply "$src/patch.diff" || { echo "$name: patch does not apply"; cd /; git -C /repo worktree remove --force "$wt"; exit 3; }
 timeout 600 /venv/bin/python "$src/demo.py" >/tmp/sw/$name.patched.log 2>&1; patched=$?
